@@ -144,6 +144,19 @@ def check_seq(ctx, seq, shapes=SHAPES, share=False):
             ctx.violation("render-deps-differ", "render()['dependencies'] in shape %s differs from the resolved list (by value)" % shape, w)
             return False
         ctx.state("shapes", shape)
+    # a later addition is seen by the next query (nothing is remembered from the first one)
+    if deps and isinstance(root, ht.Tag):
+        newer = ht.HTMLDependency(seq[0][0], "99.0", script={"src": "newer.js"})
+        fresh = ht.HTMLDependency("zz-late", "1.0")
+        root.append(ht.span(newer), fresh)
+        got = root.get_dependencies()
+        want2 = refdeps.resolve(list(zip(list(seq) + [(seq[0][0], "99.0"), ("zz-late", "1.0")], deps + [newer, fresh])),
+                                name=lambda it: it[0][0], version=lambda it: it[0][1])
+        ctx.count("oracle.resolution_after_append")
+        if not same_ids(got, [d for _, d in want2]):
+            ctx.violation("stale-dependencies-after-append", "get_dependencies() after appending newer dependencies is not the reference resolution",
+                          dict(wit, got=[(d.name, str(d.version)) for d in got]))
+            return False
     return True
 
 
